@@ -557,7 +557,10 @@ def _asf_objs(d, p, end, what):
 
 
 def _u16(s):
-    return s.decode("utf-16-le")
+    try:
+        return s.decode("utf-16-le")
+    except UnicodeDecodeError:
+        raise Bad("asf: text is not valid UTF-16-LE")
 
 
 def _asf_value(t, v):
